@@ -605,12 +605,13 @@ def _okey(body, op):
     k = op_const(op)
     if k is not None:
         return ("const", k.get("int", k.get("float", k.get("disp"))))
-    l = R.origin_local(body, op)
-    if l is not None:
-        return ("local", l)
+    # through plain copies / moves only: a cast changes the value (`x as i32` of a NaN is 0), so `a <= b` known of the
+    # values before a cast says nothing about the values after it
     pl = op_place(op)
     if pl is not None:
         src = _source_place(body, pl)
+        if not src[1]:
+            return ("local", src[0])
         return ("place", src)
     return None
 
@@ -710,7 +711,7 @@ def range_guard(body, bb, t):
     lo, hi = _okey(body, o[2]["args"][0]), _okey(body, o[2]["args"][1])
     conds = dom_conditions(body, bb)
     le, positive = knows_le(conds, lo, hi)
-    tys = {body.local_ty(k[1]) for k in (lo, hi) if k and k[0] == "local"}
+    tys = {str(body.local_ty(op_place(a)[0])) if op_place(a) is not None and not op_place(a)[1] else "?" for a in o[2]["args"][:2]}
     if le and (positive or tys <= {"i32", "i64", "u32", "u64", "usize", "isize"}):
         return "dominating test establishes min <= max for the (integer) range bounds"
     return None
@@ -769,6 +770,8 @@ def search_offset_guard(body, bb, t, kind):
     """split_at(s, i) / Vec::remove(v, i): i is the hit of find/rfind/position on the same s / v"""
     recv, idx = t["args"][0], t["args"][1]
     names = ("find", "rfind") if kind == "split_at" else ("position", "rposition")
+    if kind == "split_at" and "fn" in t and "[" in Callee(t["fn"]).path and "str" not in Callee(t["fn"]).path.split("<impl ")[-1][:4]:
+        names = ("position", "rposition")  # split_at on a slice: the offset of an element, not of a char
     k, cb = _search_origin(body, idx, names)
     if k is None:
         return None
@@ -842,6 +845,125 @@ def position_index_guard(body, bb, t):
     return f"index {form} where i is the position() hit on the same, unmodified collection (i < len)"
 
 
+_SHRINKING = ("pop", "clear", "remove", "truncate", "drain", "retain", "retain_mut", "swap_remove", "split_off", "dedup", "dedup_by", "dedup_by_key", "take", "replace", "swap", "set_len", "resize", "resize_with", "append")
+
+
+def may_be_empty_at(body, site_bb, key, cap=40000):
+    """path-sensitive: can `site_bb` be reached with the collection `key` possibly empty?  A path learns "not empty"
+    from the false edge of `is_empty()` (or a `len()` comparison the D2 edge reader understands) and from a `push`
+    / `insert` / `push_str` into it; it forgets it when the collection is handed out mutably to anything that can
+    shrink it.  False = non-empty on every path."""
+    def recv_key(t):
+        return value_key(body, t["args"][0]) if t.get("args") else None
+
+    seen, work, steps = set(), [(0, True)], 0
+    while work:
+        b, maybe = work.pop()
+        if (b, maybe) in seen:
+            continue
+        seen.add((b, maybe))
+        steps += 1
+        if steps > cap:
+            return True
+        if b == site_bb:
+            if maybe:
+                return True
+            continue
+        t = body.term(b)
+        nxt = maybe
+        if t["k"] in ("call", "tailcall") and "fn" in t and t.get("args"):
+            c = Callee(t["fn"])
+            last = c.path.split("::")[-1]
+            if recv_key(t) == key:
+                if last in ("push", "insert", "push_str", "push_back", "push_front"):
+                    nxt = False
+                elif last in _SHRINKING:
+                    nxt = True
+            elif any(value_key(body, a) == key for a in t["args"]) and c.local:
+                # handed to a function of the crate: by shared reference it cannot change; by `&mut` anything can happen
+                for a in t["args"]:
+                    pl = op_place(a)
+                    if pl is not None and value_key(body, a) == key and str(body.local_ty(pl[0])).startswith("&mut"):
+                        nxt = True
+        if t["k"] == "switch":
+            r_done = False
+            for s_ in body.succ[b]:
+                r = len_lower_bound_on_edge(body, b, s_)
+                if r is not None and r[0] == key:
+                    r_done = True
+                    work.append((s_, False if r[1] >= 1 else nxt))
+                else:
+                    work.append((s_, nxt))
+            if r_done or True:
+                continue
+        for s_ in body.succ[b]:
+            work.append((s_, nxt))
+    return False
+
+
+def nonempty_guard(body, bb, t, kind):
+    """sites that are safe on a non-empty collection: `v.len() - 1`, `v[v.len() - 1]`, and the None arm of
+    `v.last()` / `last_mut()` / `first()` / `first_mut()` (unwrap / expect / a panicking match arm)"""
+    if kind.startswith("assert:Overflow(Sub)"):
+        # len(v) - 1
+        if const_int(t.get("b")) != 1:
+            return None
+        lk, k2 = _len_subject(body, t.get("a"))
+        if lk is None or k2 != "len":
+            return None
+        if may_be_empty_at(body, bb, lk) is False:
+            return "`len - 1` of a collection that is not empty on any path to this point (tested with is_empty() / pushed to)"
+        return None
+    if kind == "index":
+        recv, idx = t["args"][0], t["args"][1]
+        rk = value_key(body, recv)
+        o = R.origin(body, idx, carriers={})
+        rv = None
+        if o[0] == "rv":
+            rv = o[1]
+        elif o[0] in ("unknown", "field", "place") or True:
+            pl = op_place(idx)
+            d = body.single_def(pl[0]) if pl is not None and not pl[1] else None
+            for _ in range(4):
+                if d and d[1] != R.TERM and d[2]["k"] == "use" and op_place(d[2]["op"]) is not None:
+                    p2 = op_place(d[2]["op"])
+                    if p2[1] == (".0",):
+                        d2 = body.single_def(p2[0])
+                        rv = d2[2] if d2 and d2[1] != R.TERM else None
+                        break
+                    d = body.single_def(p2[0]) if not p2[1] else None
+                else:
+                    break
+        if rk is not None and rv is not None and rv.get("k") == "binop" and str(rv.get("op", "")).startswith("Sub") and const_int(rv.get("b")) == 1:
+            lk, k2 = _len_subject(body, rv["a"])
+            if lk == rk and k2 == "len" and may_be_empty_at(body, bb, rk) is False:
+                return "index `len - 1` of a collection that is not empty on any path to this point"
+        return None
+    return None
+
+
+def last_of_nonempty(body, bb, t_or_none, opt_local):
+    """the Option in `opt_local` is the result of last() / last_mut() / first() / first_mut() on a collection that is
+    not empty on any path to the call: it is Some"""
+    d = body.single_def(opt_local)
+    for _ in range(4):
+        if d and d[1] != R.TERM and d[2]["k"] == "use" and op_place(d[2]["op"]) is not None and not op_place(d[2]["op"])[1]:
+            d = body.single_def(op_place(d[2]["op"])[0])
+        else:
+            break
+    if not d or d[1] != R.TERM or "fn" not in d[2]:
+        return None
+    c = Callee(d[2]["fn"])
+    if c.path.split("::")[-1] not in ("last", "last_mut", "first", "first_mut") or not d[2].get("args"):
+        return None
+    k = value_key(body, d[2]["args"][0])
+    if k is None:
+        return None
+    if may_be_empty_at(body, d[0], k) is False:
+        return f"`{c.path.split('::')[-1]}()` of a collection that is not empty on any path to the call (tested with is_empty() / pushed to): Some"
+    return None
+
+
 def insert_slot_guard(body, bb, t):
     """Vec::insert(v, i, x) with i = `position(..).unwrap_or(v.len())` (or the position hit itself) over the same,
     unmodified v: i <= len"""
@@ -904,6 +1026,42 @@ def closure_param_index_guard(prog, body, bb, t, kind):
                 caps = [value_key(parent, o_) for o_ in ch[1].get("ops", [])]
                 if k in caps and len([c_ for c_ in caps if c_ == k]) == 1 and not mutated_between(parent, k, cb, pb):
                     return "the index is the parameter of a closure applied to the position() hit over the collection the closure captures (i < len)"
+    return None
+
+
+def split_tail_guard(body, bb, t):
+    """`rest[1..]` / `rest[0]` where `rest` is the second half of `v.split_at(i)` and i is the position() hit on v:
+    i < len(v), so rest holds at least the hit itself"""
+    recv, a1 = t["args"][0], t["args"][1]
+    o = R.origin(body, a1, carriers={})
+    need = None
+    if o[0] == "rv" and o[1].get("k") == "aggr" and str(o[1].get("adt", "")).endswith("RangeFrom"):
+        need = const_int(o[1]["ops"][0])
+    elif o[0] == "const":
+        c = const_int(a1)
+        need = c + 1 if c is not None else None
+    if need is None or need > 1:
+        return None
+    # the receiver is component .1 of the result of split_at
+    pl = op_place(recv)
+    for _ in range(6):
+        if pl is None:
+            return None
+        if pl[1] and pl[1][-1] == ".1":
+            d = body.single_def(pl[0])
+            if d and d[1] == R.TERM and "fn" in d[2] and Callee(d[2]["fn"]).path.endswith("split_at") and "str" not in Callee(d[2]["fn"]).path:
+                k, cb = _search_origin(body, d[2]["args"][1], ("position", "rposition"))
+                rk = value_key(body, d[2]["args"][0])
+                if k is not None and k == rk:
+                    return "the slice is the tail of split_at(v, i) with i the position() hit on v: it starts with the hit, so it has at least one element"
+            return None
+        d = body.single_def(pl[0]) if not pl[1] else None
+        if not d or d[1] == R.TERM:
+            return None
+        rv = d[2]
+        pl = op_place(rv.get("op")) if rv["k"] in ("use", "cast") else (P(rv["place"]) if rv["k"] == "ref" else None)
+        if pl is not None and pl[1] and pl[1][0] == "*" and len(pl[1]) == 1:
+            pl = (pl[0], ())
     return None
 
 
